@@ -122,7 +122,7 @@ MAXLINE = 250
 
 
 def quick_runs(prop):
-    return {'C10': 2600, 'C11': 1000, 'C12': 1500}.get(prop, 1000)
+    return {'C10': 2000, 'C11': 1000, 'C12': 1500}.get(prop, 1000)
 
 
 ###############################################################################
